@@ -174,6 +174,30 @@ Section Exec.
                           | _ => EvExit (r_ret r) (start_gas - gas_var) (r_err r) end]
     else s.
 
+
+  (** what EVM.create does with the result of running the init code (evm.go:621-655): size and 0xEF
+      checks, code deposit, the revert rule (Homestead: also on code-store out of gas) *)
+  Definition code_store_oog : string := "contract creation code storage out of gas".
+  Definition create_checks (ret : bytes) (err : option verr) : option verr :=
+    match err with
+    | Some e => Some e
+    | None =>
+      if is_eip158 && (max_code_size <? blen ret) then Some (VOther "max code size exceeded")
+      else if is_london && (match ret with 0xEF :: _ => true | _ => false end)
+           then Some (VOther "invalid code: must not begin with 0xef")
+           else None
+    end.
+  Definition create_finish (w0 : W) (address : N) (r : cres) (s : xstate) : cres * xstate :=
+    let ret := r_ret r in
+    match create_checks ret (r_err r) with
+    | None =>
+      let cost := blen ret * 200 in
+      if cost <=? r_gas r then (mk ret (r_gas r - cost) None, set_w s (set_code (xw s) address ret))
+      else if is_homestead then (mk ret 0 (Some (VOther code_store_oog)), set_w s w0)
+           else (mk ret (r_gas r) (Some (VOther code_store_oog)), s)
+    | Some e => (mk ret (if is_revert e then r_gas r else 0) (Some e), set_w s w0)
+    end.
+
   Definition max_depth : nat := 1024.
 
   Definition opcode_of_kind (k : callkind) : N :=
@@ -393,27 +417,8 @@ Section Exec.
             match run_frame fuel' depth hint fc gas s with
             | None => None
             | Some (r, s) =>
-              let ret := r_ret r in
-              let err := r_err r in
-              let err := match err with None => if is_eip158 && (max_code_size <? blen ret) then Some (VOther "max code size exceeded") else None | e => e end in
-              let err := match err with None => if is_london && (match ret with 0xEF :: _ => true | _ => false end)
-                                                then Some (VOther "invalid code: must not begin with 0xef") else None | e => e end in
-              let '(g, err, s) :=
-                  match err with
-                  | None => let cost := blen ret * 200 in
-                            if cost <=? r_gas r then (r_gas r - cost, None, set_w s (set_code (xw s) address ret))
-                            else (r_gas r, Some (VOther "contract creation code storage out of gas"), s)
-                  | e => (r_gas r, e, s)
-                  end in
-              let '(g, s) :=
-                  match err with
-                  | Some e =>
-                    if is_homestead || negb (match e with VOther t => String.eqb t "contract creation code storage out of gas" | _ => false end)
-                    then (if is_revert e then g else 0, set_w s w0) else (g, s)
-                  | None => (g, s)
-                  end in
-              let r' := mk ret g err in
-              finish (r', dbg_close s depth r' gas g)
+              let '(r', s) := create_finish w0 address r s in
+              finish (r', dbg_close s depth r' gas (r_gas r'))
             end
     end.
 End Exec.
